@@ -179,6 +179,45 @@ theorem C15_frame (k : Kind) (δ : Delta) (held : List Nat) (M : PM) (e : Ev) (h
       split
       · first | rfl | (simp only [alookup_regen, hx, if_false])
       · rfl
+    | readd m => first | rfl | trivial
+
+/-! ### any further identity-keyed table (`PM.idtabs`)
+
+The predefined classes keep exactly the tables modelled above; `idtabs` stands for ANY further container of
+`id(model)` a class might keep (a registry used for a membership test, a cache …).  Nothing re-keys it:
+it is pickled by value.  The theorems say what that means; the harness discovers such tables generically
+on the live objects (an integer equal to `id()` of one of the ORIGINAL's objects anywhere in the restored
+machine's containers is a violation of separation), and drives `add_model` of a registered model
+(`Ev.readd`, a no-op here: the registration test is membership in `models`), `add_model`, `remove_model`
+and `dispatch` on copy and control. -/
+
+/-- pickling leaves such a table exactly as it is: keyed by the ORIGINAL's ids -/
+theorem C15_idtabs_by_value (k : Kind) (ρ : Nat → Nat) (M : PM) : (roundtrip k ρ M).idtabs = M.idtabs := by
+  unfold roundtrip setstate getstate baseSetstate baseGetstate
+  cases k.graph <;> cases k.locked <;> cases k.qmodel <;> rfl
+
+/-- … so whenever the unpickled objects are new ones, every registered model recorded in such a table
+leaves a STALE key in the copy: an id that belongs to none of the copy's models (while `ρ m` is what
+a re-keyed table would hold, see `ren`) -/
+theorem C15_idtabs_stale (k : Kind) (ρ : Nat → Nat) (M : PM)
+    (hfresh : ∀ m ∈ M.models, ∀ x ∈ M.models, ρ x ≠ m) (t : List Nat) (ht : t ∈ M.idtabs)
+    (m : Nat) (hmt : m ∈ t) (hm : m ∈ M.models) :
+    t ∈ (roundtrip k ρ M).idtabs ∧ m ∈ t ∧ m ∉ (roundtrip k ρ M).models := by
+  refine ⟨by rw [C15_idtabs_by_value]; exact ht, hmt, ?_⟩
+  rw [(roundtrip_models k ρ M).1]
+  intro h
+  obtain ⟨x, hx, e⟩ := List.mem_map.mp h
+  exact hfresh m hm x hx e
+
+/-- hypothesis under which the copy equals the renamed original in this respect too: the class keeps no
+further identity-keyed table (true of the 12 predefined classes on the pinned tree — checked on the live
+objects by the harness on every snapshot) -/
+theorem C15_idtabs_none (k : Kind) (ρ : Nat → Nat) (M : PM) (h : M.idtabs = []) :
+    (roundtrip k ρ M).idtabs = (ren ρ M).idtabs := by
+  rw [C15_idtabs_by_value, h]; simp [ren, h]
+
+example : (roundtrip {} (· + 100) { models := [1, 2], idtabs := [[1, 2]] }).idtabs = [[1, 2]] := by decide
+example : (ren (· + 100) { models := [1, 2], idtabs := [[1, 2]] }).idtabs = [[101, 102]] := by decide
 
 /-! ### snapshots taken while an event is in progress (from a callback)
 
